@@ -13,6 +13,12 @@
      close.before_writer     PC2       tables drained, writer not yet locked for shutdown (PC2wait: queued)
      open.checked            PO0       open_stream: closed flag examined (it was clear), id not yet allocated
      open.registered         PO1       open_stream: id allocated and registered, SYN not yet submitted
+     pump.loop               PIdle of the pump task: top of the loop of process_stream_data
+     (no point)              PPwait    the pump is inside `select!{notified(), recv()}` with an empty channel
+
+   The outbound data path of proxied streams: `Stream::send_data` / `poll_write` (CSend) pushes (id, bytes) into
+   the session's unbounded channel `dq`; the pump task (process_stream_data, CPump = one loop iteration) pops
+   one item and submits it with write_data_frame. `pushed` is a ghost log of all successful pushes.
 
    The buffer mutex and the table RwLocks are never held across an await that can block on another
    session lock, so their critical sections are atomic steps here. The writer mutex is a tokio mutex:
@@ -44,10 +50,13 @@ Inductive call :=
 | CClose                      (* owner calls close() *)
 | CDisableBuf | CEnableBuf
 | CFail                       (* from now on every transport write fails *)
-| CFeed (ev : inev).          (* bytes of one incoming frame / EOF / error reach recv_loop *)
+| CFeed (ev : inev)           (* bytes of one incoming frame / EOF / error reach recv_loop *)
+| CSend (payload : bytes)     (* Stream::send_data / poll_write on this task's stream: push into the session's channel *)
+| CPump.                      (* process_stream_data: the first call takes the receiver, every further call is one
+                                 iteration of its loop (pop one item, write_data_frame) *)
 
 Inductive after := AfterClose | AfterIoErr | AfterRecv.
-Inductive wk := WkPlain | WkOpen.
+Inductive wk := WkPlain | WkOpen | WkPump.
 
 Inductive pc :=
 | PIdle
@@ -57,7 +66,8 @@ Inductive pc :=
 | PE0 (a : after) (k : wk)
 | PC1 (a : after) (k : wk) | PC2 (a : after) (k : wk) | PC2wait (a : after) (k : wk)
 | PO0
-| PO1 (sid : N).
+| PO1 (sid : N)
+| PPwait.
 
 Record task := {
   t_prog : list call;
@@ -67,6 +77,7 @@ Record task := {
   t_verdict : option res;      (* the one-shot open verdict, once resolved *)
   t_rq : nat;                  (* chunks queued for this task's stream reader *)
   t_rclosed : bool;            (* the queue's sender was dropped *)
+  t_sclosed : bool;            (* Stream::is_closed of this task's stream: set by the drain of close() only *)
   t_sub : list frame           (* ghost: frames this task has submitted (write_frame entered), in order *)
 }.
 
@@ -84,14 +95,18 @@ Record state := {
   table : list (N * tid);           (* registered stream ids -> owner task *)
   ralive : bool;                    (* recv_loop still running *)
   tasks : tid -> task;
-  lin : list witem
+  lin : list witem;
+  dq : list witem;                  (* the unbounded channel stream_data_tx -> rx: (sender task, data frame) *)
+  pushed : list witem;              (* ghost: every successful push, in order *)
+  pump_owner : option tid;          (* the task that took the receiver (process_stream_data) *)
+  pump_done : bool                  (* that task has returned: the receiver is dropped, sends fail *)
 }.
 
 Definition rtid : tid := 0%nat.
 
 Definition idle_task (prog : list call) : task :=
   {| t_prog := prog; t_pc := PIdle; t_res := []; t_sid := None; t_verdict := None;
-     t_rq := 0; t_rclosed := false; t_sub := [] |}.
+     t_rq := 0; t_rclosed := false; t_sclosed := false; t_sub := [] |}.
 
 Definition upd (f : tid -> task) (t : tid) (v : task) : tid -> task :=
   fun t' => if Nat.eqb t' t then v else f t'.
@@ -100,48 +115,64 @@ Definition upd (f : tid -> task) (t : tid) (v : task) : tid -> task :=
 Definition set_tasks (s : state) (ts : tid -> task) : state :=
   {| buffering := buffering s; pending := pending s; wr := wr s; waiters := waiters s; pkt := pkt s;
      wire := wire s; closed := closed s; shut := shut s; failing := failing s; next_sid := next_sid s;
-     table := table s; ralive := ralive s; tasks := ts; lin := lin s |}.
+     table := table s; ralive := ralive s; tasks := ts; lin := lin s;
+     dq := dq s; pushed := pushed s; pump_owner := pump_owner s; pump_done := pump_done s |}.
 Definition set_task (s : state) (t : tid) (v : task) : state := set_tasks s (upd (tasks s) t v).
 
 Definition with_pc (x : task) (p : pc) : task :=
   {| t_prog := t_prog x; t_pc := p; t_res := t_res x; t_sid := t_sid x; t_verdict := t_verdict x;
-     t_rq := t_rq x; t_rclosed := t_rclosed x; t_sub := t_sub x |}.
+     t_rq := t_rq x; t_rclosed := t_rclosed x; t_sclosed := t_sclosed x; t_sub := t_sub x |}.
 Definition with_res (x : task) (r : res) : task :=
   {| t_prog := t_prog x; t_pc := PIdle; t_res := t_res x ++ [r]; t_sid := t_sid x;
-     t_verdict := t_verdict x; t_rq := t_rq x; t_rclosed := t_rclosed x; t_sub := t_sub x |}.
+     t_verdict := t_verdict x; t_rq := t_rq x; t_rclosed := t_rclosed x; t_sclosed := t_sclosed x; t_sub := t_sub x |}.
 Definition with_prog (x : task) (p : list call) : task :=
   {| t_prog := p; t_pc := t_pc x; t_res := t_res x; t_sid := t_sid x; t_verdict := t_verdict x;
-     t_rq := t_rq x; t_rclosed := t_rclosed x; t_sub := t_sub x |}.
+     t_rq := t_rq x; t_rclosed := t_rclosed x; t_sclosed := t_sclosed x; t_sub := t_sub x |}.
 Definition with_sid (x : task) (sid : N) : task :=
   {| t_prog := t_prog x; t_pc := t_pc x; t_res := t_res x; t_sid := Some sid; t_verdict := None;
-     t_rq := 0; t_rclosed := false; t_sub := t_sub x |}.
+     t_rq := 0; t_rclosed := false; t_sclosed := false; t_sub := t_sub x |}.
 Definition with_verdict (x : task) (v : option res) : task :=
   {| t_prog := t_prog x; t_pc := t_pc x; t_res := t_res x; t_sid := t_sid x; t_verdict := v;
-     t_rq := t_rq x; t_rclosed := t_rclosed x; t_sub := t_sub x |}.
+     t_rq := t_rq x; t_rclosed := t_rclosed x; t_sclosed := t_sclosed x; t_sub := t_sub x |}.
 Definition with_rq (x : task) (q : nat) (c : bool) : task :=
   {| t_prog := t_prog x; t_pc := t_pc x; t_res := t_res x; t_sid := t_sid x; t_verdict := t_verdict x;
-     t_rq := q; t_rclosed := c; t_sub := t_sub x |}.
+     t_rq := q; t_rclosed := c; t_sclosed := t_sclosed x; t_sub := t_sub x |}.
 Definition with_sub (x : task) (f : frame) : task :=
   {| t_prog := t_prog x; t_pc := t_pc x; t_res := t_res x; t_sid := t_sid x; t_verdict := t_verdict x;
-     t_rq := t_rq x; t_rclosed := t_rclosed x; t_sub := t_sub x ++ [f] |}.
+     t_rq := t_rq x; t_rclosed := t_rclosed x; t_sclosed := t_sclosed x; t_sub := t_sub x ++ [f] |}.
+Definition with_sclosed (x : task) : task :=
+  {| t_prog := t_prog x; t_pc := t_pc x; t_res := t_res x; t_sid := t_sid x; t_verdict := t_verdict x;
+     t_rq := t_rq x; t_rclosed := t_rclosed x; t_sclosed := true; t_sub := t_sub x |}.
 Definition clear_sid (x : task) : task :=
   {| t_prog := t_prog x; t_pc := t_pc x; t_res := t_res x; t_sid := None; t_verdict := t_verdict x;
-     t_rq := t_rq x; t_rclosed := t_rclosed x; t_sub := t_sub x |}.
+     t_rq := t_rq x; t_rclosed := t_rclosed x; t_sclosed := t_sclosed x; t_sub := t_sub x |}.
 
 Definition set_pc (s : state) (t : tid) (p : pc) : state := set_task s t (with_pc (tasks s t) p).
 Definition finish (s : state) (t : tid) (r : res) : state := set_task s t (with_res (tasks s t) r).
 (* end of a write_frame call: an open_stream whose SYN failed returns Err, the caller has no stream handle *)
+Definition set_pump (s : state) (q pu : list witem) (o : option tid) (d : bool) : state :=
+  {| buffering := buffering s; pending := pending s; wr := wr s; waiters := waiters s; pkt := pkt s;
+     wire := wire s; closed := closed s; shut := shut s; failing := failing s; next_sid := next_sid s;
+     table := table s; ralive := ralive s; tasks := tasks s; lin := lin s;
+     dq := q; pushed := pu; pump_owner := o; pump_done := d |}.
+Definition set_pump_done (s : state) : state := set_pump s (dq s) (pushed s) (pump_owner s) true.
+Definition set_dq (s : state) (q : list witem) : state := set_pump s q (pushed s) (pump_owner s) (pump_done s).
+
+(* a write that the pump submitted and that failed makes process_stream_data return the error: the pump is gone *)
 Definition finish_w (s : state) (t : tid) (k : wk) (r : res) : state :=
   match k, r with
   | WkOpen, ResOk => finish s t r
   | WkOpen, _ => set_task s t (with_res (clear_sid (tasks s t)) r)
   | WkPlain, _ => finish s t r
+  | WkPump, ResOk => finish s t r
+  | WkPump, _ => set_pump_done (finish s t r)
   end.
 
 Definition set_flags (s : state) (b c sh fl ra : bool) : state :=
   {| buffering := b; pending := pending s; wr := wr s; waiters := waiters s; pkt := pkt s;
      wire := wire s; closed := c; shut := sh; failing := fl; next_sid := next_sid s;
-     table := table s; ralive := ra; tasks := tasks s; lin := lin s |}.
+     table := table s; ralive := ra; tasks := tasks s; lin := lin s;
+     dq := dq s; pushed := pushed s; pump_owner := pump_owner s; pump_done := pump_done s |}.
 Definition set_buffering (s : state) (b : bool) := set_flags s b (closed s) (shut s) (failing s) (ralive s).
 Definition set_closed (s : state) := set_flags s (buffering s) true (shut s) (failing s) (ralive s).
 Definition set_shut (s : state) := set_flags s (buffering s) (closed s) true (failing s) (ralive s).
@@ -151,19 +182,23 @@ Definition set_rdead (s : state) := set_flags s (buffering s) (closed s) (shut s
 Definition set_queue (s : state) (p : list witem) (l : list witem) : state :=
   {| buffering := buffering s; pending := p; wr := wr s; waiters := waiters s; pkt := pkt s;
      wire := wire s; closed := closed s; shut := shut s; failing := failing s; next_sid := next_sid s;
-     table := table s; ralive := ralive s; tasks := tasks s; lin := l |}.
+     table := table s; ralive := ralive s; tasks := tasks s; lin := l;
+     dq := dq s; pushed := pushed s; pump_owner := pump_owner s; pump_done := pump_done s |}.
 Definition set_lock (s : state) (w : option tid) (ws : list tid) : state :=
   {| buffering := buffering s; pending := pending s; wr := w; waiters := ws; pkt := pkt s;
      wire := wire s; closed := closed s; shut := shut s; failing := failing s; next_sid := next_sid s;
-     table := table s; ralive := ralive s; tasks := tasks s; lin := lin s |}.
+     table := table s; ralive := ralive s; tasks := tasks s; lin := lin s;
+     dq := dq s; pushed := pushed s; pump_owner := pump_owner s; pump_done := pump_done s |}.
 Definition set_wire (s : state) (k : N) (w : list (N * list witem)) : state :=
   {| buffering := buffering s; pending := pending s; wr := wr s; waiters := waiters s; pkt := k;
      wire := w; closed := closed s; shut := shut s; failing := failing s; next_sid := next_sid s;
-     table := table s; ralive := ralive s; tasks := tasks s; lin := lin s |}.
+     table := table s; ralive := ralive s; tasks := tasks s; lin := lin s;
+     dq := dq s; pushed := pushed s; pump_owner := pump_owner s; pump_done := pump_done s |}.
 Definition set_table (s : state) (n : N) (tb : list (N * tid)) : state :=
   {| buffering := buffering s; pending := pending s; wr := wr s; waiters := waiters s; pkt := pkt s;
      wire := wire s; closed := closed s; shut := shut s; failing := failing s; next_sid := n;
-     table := tb; ralive := ralive s; tasks := tasks s; lin := lin s |}.
+     table := tb; ralive := ralive s; tasks := tasks s; lin := lin s;
+     dq := dq s; pushed := pushed s; pump_owner := pump_owner s; pump_done := pump_done s |}.
 
 (* ---- close(): what the finished close returns into ---- *)
 Definition finish_close (s : state) (t : tid) (a : after) (k : wk) : state :=
@@ -200,8 +235,17 @@ Fixpoint drain (tb : list (N * tid)) (ts : tid -> task) : tid -> task :=
   | (_, o) :: tb' =>
       let x := ts o in
       let v := match t_verdict x with None => Some ResClosed | Some r => Some r end in
-      drain tb' (upd ts o (with_rq (with_verdict x v) (t_rq x) true))
+      drain tb' (upd ts o (with_sclosed (with_rq (with_verdict x v) (t_rq x) true)))
   end.
+
+(* the Alert handler records the alert on every registered stream (Stream::close_with_error: the stream's own
+   closed flag) before it calls close() *)
+Fixpoint mark_sclosed (tb : list (N * tid)) (ts : tid -> task) : tid -> task :=
+  match tb with
+  | [] => ts
+  | (_, o) :: tb' => mark_sclosed tb' (upd ts o (with_sclosed (ts o)))
+  end.
+Definition mark_state (s : state) : state := set_tasks s (mark_sclosed (table s) (tasks s)).
 
 Fixpoint lookup_owner (tb : list (N * tid)) (o : tid) : option N :=
   match tb with
@@ -238,7 +282,9 @@ Definition feed_ev (s : state) (ev : inev) : state :=
           set_table (set_task s o (with_rq x (t_rq x) true)) (next_sid s) (remove_owner (table s) o)
       | None => s
       end
-  | InAlert | InEof =>
+  | InAlert =>
+      if pc_is_idle (t_pc (tasks s rtid)) then enter_close (mark_state s) rtid AfterRecv WkPlain else s
+  | InEof =>
       if pc_is_idle (t_pc (tasks s rtid)) then enter_close s rtid AfterRecv WkPlain else s
   | InErr =>
       if pc_is_idle (t_pc (tasks s rtid)) then set_pc s rtid (PE0 AfterRecv WkPlain) else s
@@ -246,6 +292,33 @@ Definition feed_ev (s : state) (ev : inev) : state :=
 
 Definition syn_frame (sid : N) : frame := {| fcmd := Syn; fsid := sid; fdata := [] |}.
 Definition psh_frame (sid : N) (d : bytes) : frame := {| fcmd := Push; fsid := sid; fdata := d |}.
+
+Definition sub_if_pump (k : wk) (x : task) (f : frame) : task :=
+  match k with WkPump => with_sub x f | _ => x end.
+
+Definition is_ppwait (p : pc) : bool := match p with PPwait => true | _ => false end.
+
+(* the pump parked inside select!{notified(), recv()} is woken by close_notify.notify_waiters(): it leaves its
+   loop and returns *)
+Definition wake_pump_closed (s : state) : state :=
+  match pump_owner s with
+  | Some p => if is_ppwait (t_pc (tasks s p)) then set_pump_done (finish s p ResClosed) else s
+  | None => s
+  end.
+
+(* Stream::send_data with the stream open: the item enters the channel; a pump parked in recv() takes it at
+   once: it re-checks the closed flag (and leaves) or submits the frame (write_data_frame -> wf.enter) *)
+Definition push_item (s : state) (t : tid) (f : frame) : state :=
+  let it := (t, f) in
+  let s1 := set_pump s (dq s) (pushed s ++ [it]) (pump_owner s) (pump_done s) in
+  match pump_owner s with
+  | Some p =>
+      if is_ppwait (t_pc (tasks s p)) then
+        if closed s then set_pump_done (finish s1 p ResClosed)
+        else set_task s1 p (with_pc (tasks s p) (PW0 WkPump f))
+      else set_dq s1 (dq s ++ [it])
+  | None => set_dq s1 (dq s ++ [it])
+  end.
 
 (* a task at PIdle starts its next call *)
 Definition start_call (s : state) (t : tid) (c : call) (rest : list call) : option state :=
@@ -285,6 +358,27 @@ Definition start_call (s : state) (t : tid) (c : call) (rest : list call) : opti
   | CFail => Some (finish (set_failing s0) t ResOk)
   | CFeed ev => if Nat.eqb t rtid then Some (finish s0 t ResOk)      (* the receive task does not feed itself *)
                else Some (finish (feed_ev s0 ev) t ResOk)
+  | CSend d =>
+      match t_sid x with
+      | None => Some (finish s0 t ResNoStream)
+      | Some sid =>
+          if t_sclosed x || pump_done s then Some (finish s0 t ResClosed)
+          else Some (finish (push_item s0 t (psh_frame sid d)) t ResOk)
+      end
+  | CPump =>
+      match pump_owner s with
+      | None => Some (finish (set_pump s0 (dq s) (pushed s) (Some t) (pump_done s)) t ResOk)   (* takes the receiver *)
+      | Some p =>
+          if negb (Nat.eqb p t) then Some (finish s0 t ResNoStream)    (* "receiver already taken": returns at once *)
+          else if pump_done s then Some (finish s0 t ResClosed)        (* process_stream_data has returned *)
+          else
+            match dq s with
+            | (_, f) :: q =>
+                if closed s then Some (set_pump_done (finish (set_dq s0 q) t ResClosed))
+                else Some (set_task (set_dq s0 q) t (with_pc x (PW0 WkPump f)))
+            | [] => Some (set_task s0 t (with_pc x PPwait))
+            end
+      end
   end.
 
 Definition step (s : state) (t : tid) : option state :=
@@ -296,9 +390,11 @@ Definition step (s : state) (t : tid) : option state :=
       | c :: rest => start_call s t c rest
       end
   | PW0 k f =>
+      (* ghost: a frame the pump took from the channel counts as submitted once write_frame is past its closed
+         check (a frame submitted by a direct caller is recorded when the call starts) *)
       if closed s then Some (finish_w s t k ResClosed)
-      else if buffering s then Some (set_pc s t (PW1 k f))
-      else Some (set_pc s t (PW2 k f))
+      else if buffering s then Some (set_task s t (with_pc (sub_if_pump k x f) (PW1 k f)))
+      else Some (set_task s t (with_pc (sub_if_pump k x f) (PW2 k f)))
   | PW1 k f =>
       Some (finish_w (set_queue s (pending s ++ [(t, f)]) (lin s ++ [(t, f)])) t k ResOk)
   | PW2 k f =>
@@ -316,7 +412,9 @@ Definition step (s : state) (t : tid) : option state :=
       else Some (finish_w (release (set_wire s n (wire s ++ [(n, held)]))) t k ResOk)
   | PE0 a k => Some (enter_close s t a k)
   | PC1 a k =>
-      Some (set_pc (set_table (set_tasks s (drain (table s) (tasks s))) (next_sid s) []) t (PC2 a k))
+      (* notify_waiters(), then the drain of both tables *)
+      let s1 := wake_pump_closed s in
+      Some (set_pc (set_table (set_tasks s1 (drain (table s1) (tasks s1))) (next_sid s1) []) t (PC2 a k))
   | PC2 a k =>
       match wr s with
       | None => Some (finish_close (set_shut s) t a k)
@@ -329,6 +427,7 @@ Definition step (s : state) (t : tid) : option state :=
       let s1 := set_table s (sid + 1) (table s ++ [(sid, t)]) in
       Some (set_task s1 t (with_pc (with_sid x sid) (PO1 sid)))
   | PO1 sid => Some (set_task s t (with_pc (with_sub x (syn_frame sid)) (PW0 WkOpen (syn_frame sid))))
+  | PPwait => None
   end.
 
 (* a schedule is a list of task ids; a grant to a task that cannot move is a stutter *)
@@ -340,6 +439,7 @@ Definition init (progs : list (list call)) (buf : bool) (pend : list witem) : st
   {| buffering := buf; pending := pend; wr := None; waiters := []; pkt := client_pkt_start;
      wire := []; closed := false; shut := false; failing := false;
      next_sid := client_first_stream_id; table := []; ralive := true;
-     tasks := fun t => idle_task (nth t progs []); lin := pend |}.
+     tasks := fun t => idle_task (nth t progs []); lin := pend;
+     dq := []; pushed := []; pump_owner := None; pump_done := false |}.
 
 Definition flat_wire (s : state) : list witem := concat (map snd (wire s)).
